@@ -6,10 +6,10 @@ SPEC = {
     "harness": "c06",
     "harness_args": {"quick": ["-n", 200, "-q", 25], "thorough": ["-n", 2500, "-q", 30]},
     "level": "proof",
-    "tie": "T3: the hand-written model (evalTree = indexManager.Search recursing through _and/_or, searchParallel, the rank sort of SearchPoints, back-fill, select via msgpack Query + nested rebuild, CompareAny / SortSearchResults, the offset/limit slice in both variants) is run by the Lean driver on the same requests as a real shard (bbolt file and memory backend alternate). The answers of the query-tree leaves (ids, _hybridScore bit patterns) and the stored documents are taken from the real shard; the driver merges, back-fills, selects, sorts and pages and must print exactly the rows the shard returns (ids in order, _hybridScore bits, decoded data). CompareAny (pairs of random scalars, of values around 2^24 / 2^53 / 2^62 / 1.7e18 / the ends of int64 and uint64 in every width and signedness, of integers and float32 beside their float64 neighbours), reflect.Kind numbers and float32 addition are also compared on scalar op lines. The documented behaviour is evaluated directly on every real answer by a Go oracle (numbers of any two kinds compared exactly with math/big).",
+    "tie": "T3: the hand-written model (evalTree = indexManager.Search recursing through _and/_or, searchParallel incl. the stable sort of its single-sub-query shortcut, back-fill, select via msgpack Query + nested rebuild, CompareAny / SortSearchResults, the offset/limit slice in both variants) is run by the Lean driver on the same requests as a real shard (bbolt file and memory backend alternate). The answers of the query-tree leaves (ids, _hybridScore bit patterns) and the stored documents are taken from the real shard; the driver merges, back-fills, selects, sorts and pages and must print exactly the rows the shard returns (ids in order, _hybridScore bits, decoded data). CompareAny (pairs of random scalars, of values around 2^24 / 2^53 / 2^62 / 1.7e18 / the ends of int64 and uint64 in every width and signedness, of integers and float32 beside their float64 neighbours), reflect.Kind numbers and float32 addition are also compared on scalar op lines. The documented behaviour is evaluated directly on every real answer by a Go oracle (numbers of any two kinds compared exactly with math/big).",
     "required_theorems": [
         "Sema.C06.C06_merge", "Sema.C06.C06_merge_single", "Sema.C06.C06_rank_order", "Sema.C06.C06_rank_sorter_exists",
-        "Sema.C06.C06_single_sub_repaired", "Sema.C06.C06_backfill",
+        "Sema.C06.C06_plain_order", "Sema.C06.C06_plain_negative_weight_witness", "Sema.C06.C06_backfill",
         "Sema.C06.C06_select", "Sema.C06.C06_select_star", "Sema.C06.C06_select_total", "Sema.C06.C06_select_scalar",
         "Sema.C06.C06_cmp_preorder", "Sema.C06.C06_sortcmp_preorder", "Sema.C06.C06_sort_exists", "Sema.C06.C06_missing_last",
         "Sema.C06.C06_sort_ties", "Sema.C06.C06_cmp_same_kind", "Sema.C06.C06_cmp_numeric", "Sema.C06.C06_cmp_integers",
@@ -18,7 +18,7 @@ SPEC = {
         "Sema.C06.C06_tree", "Sema.C06.C06_answer", "Sema.C06.C06_search_page",
     ],
     "trusted_base": [
-        "msgpack: Decoder.Query(path) = lookup along map keys (first match), error when the path meets a non-container; Decoder.Skip succeeds on the bytes of a stored document (they are well-formed msgpack); decoding into `any` yields int8/16/32/64, uint8/16/32/64, float32/64 by encoded width; Decode into the partly built map sets every top-level key (array indices and `*` inside paths are outside the model)",
+        "msgpack: Decoder.Query(path) = lookup along map keys (first match), error when the path meets a non-container; decoding into `any` yields int8/16/32/64, uint8/16/32/64, float32/64 by encoded width; Decode into the partly built map sets every top-level key (array indices and `*` inside paths are outside the model)",
         "float semantics used by compareIntegerFloat: a float64 bit pattern denotes (-1)^s * m * 2^(e-1075) (scaled64 = that value times 2^1074, an integer), float32 widens exactly (scaled32), math.Trunc / T(t) discard the fraction exactly, cmp.Compare on floats is the order of the values with NaN first; all validated against Go on the `cmp` lines of every run, and tied to Base/Float.lean's bit-pattern order by the theorem C06_float_value_order",
         "roaring bitmaps are finite sets iterated in ascending order; FastAnd/FastOr of zero bitmaps are empty",
         "Go's slices.SortFunc returns SOME permutation sorted under the comparator (unstable); the theorems hold for every such permutation, the driver prints the one closest to the implementation's and re-checks that it is a sorted permutation; slices.SortStableFunc additionally leaves a list that is in order as it is",
@@ -31,7 +31,7 @@ SPEC = {
         "which _distance/_score a multiply-found point reports is not judged (DESIGN.md C06)",
         "select / sort paths consist of non-empty segments that are map keys (no array indices, no `*` inside a path); stored documents are msgpack maps with string keys, unique per map",
         "hybrid scores and distances are not NaN",
-        "hypotheses the proofs force, each with a proved witness that it cannot be dropped: offset+limit does not overflow on the pinned slice expression (C06_page_overflow_witness; none after the repair, C06_page_repaired). The three former ones (two or more sub-queries for the rank order; no select path through a scalar; one reflect.Kind per sort key) are gone with the repository repairs: C06_rank_order, C06_select / C06_select_total, C06_cmp_numeric / C06_sort_numeric have no such hypothesis",
+        "hypotheses the proofs force, each with a proved witness that it cannot be dropped: offset+limit does not overflow on the pinned slice expression (C06_page_overflow_witness; none after the repair, C06_page_repaired). The three former ones (two or more sub-queries for the rank order; no select path through a scalar; one reflect.Kind per sort key) are gone with the repository repairs: C06_rank_order (every composite query), C06_select / C06_select_total, C06_cmp_numeric / C06_sort_numeric have no such hypothesis. The hybrid-score order is demanded of composite queries only (the property text: 'For composite queries ...'); a plain ranking query keeps the order of its index (C06_plain_order; C03-C05 say what that order is) and C06_plain_negative_weight_witness shows the two orders differ for a negative weight",
     ],
     "timeout": {"quick": 600, "thorough": 3000},
 }
